@@ -1,12 +1,12 @@
 """Replay of a failed obligation on the real code.  Run with /verif/.venv/bin/python.
 Exits 1 when the violation reproduces on the tree under /repo, 0 otherwise.
 obligation: C04/stereodescriptors.py:_StereoMixin.__eq__/AtropBond/p=-1,q=1#path1
-result differs from spatial identity: AtropBond((None, None, 0, -2, None, -1),-1) == AtropBond((None, None, 0, -2, None, -1),1); spec says True
+result differs from spatial identity: AtropBond((None, None, 1, 2, None, 0),-1) == AtropBond((None, None, 1, 2, None, 0),1); spec says True
 """
 import sys
 sys.path.insert(0, '/repo/src')
 from stereomolgraph.stereodescriptors import AtropBond
-a = AtropBond((None, None, 0, -2, None, -1), -1); b = AtropBond((None, None, 0, -2, None, -1), 1)
+a = AtropBond((None, None, 1, 2, None, 0), -1); b = AtropBond((None, None, 1, 2, None, 0), 1)
 expected = True   # spatial identity according to the oracle group of the idealised figure
 try:
     got = (a == b)
